@@ -464,6 +464,13 @@ fn thresh_decrypt(plan: &Plan, lib: &dyn Lib, rec: &mut Rec) {
             }
         }
     }
+    // the library offers a second way to make a participant's share — the trait function
+    // `BlsSignCrypt::create_decryption_share` — and a participant's decryption share is one value, whichever is used
+    for i in [0usize, n - 1] {
+        let o = rec.call(lib, g, Op::ScShareTrait, &[&ct, &d.shares[i]]);
+        let same = matches!(o.first(), Some(b) if b.len() == dshares[i].len() && b[0] == dshares[i][0] && b[1..] == dshares[i][1..]);
+        rec.expect("C12", "decryption-share-created", same, || format!("create-via-trait scheme={} g={} | BlsSignCrypt::create_decryption_share for participant {} does not give the participant's decryption share ({} bytes + identifier expected): {}", sch, g.name(), i + 1, dshares[i].len() - 1, match &o { Out::Ok(v) => format!("Ok({} bytes)", v.first().map(|b| b.len()).unwrap_or(0)), other => format!("{:?}", other) }));
+    }
     // each share verifies against its own public-key share and this ciphertext, for every scheme
     let to_verify: Vec<usize> = if big { let mut v = vec![0, n - 1, 126.min(n - 1), 127.min(n - 1)]; v.push(x.below(n as u64) as usize); v.dedup(); v } else { (0..n).collect() };
     for i in to_verify {
